@@ -1,5 +1,6 @@
 CONSTANTS R = 2
   N = 2
+  Find = FALSE
   Relist = TRUE
   MaxRelist = 3
 SPECIFICATION Spec
